@@ -924,11 +924,7 @@ func (o Object) Equals(with Item) bool {
 			}
 		}
 		if w.URL != nil {
-			if o.URL == nil {
-				result = false
-				return nil
-			}
-			if !w.URL.GetLink().Equals(o.URL.GetLink(), false) {
+			if !ItemsEqual(o.URL, w.URL) {
 				result = false
 				return nil
 			}
